@@ -316,33 +316,31 @@ func (r *runner) applyDML(tbl string, cols []rmkit.Col, before *kTable, op kOp, 
 			n[op.SCol] = op.SV
 			return n
 		}
-		matched := 0
+		changing, unchanged := 0, 0
 		for _, kr := range before.Rows {
-			if matchesW(kr.Vals) && rmkit.WireVals(newRow(kr.Vals)) != rmkit.WireVals(kr.Vals) {
-				matched += kr.Card
+			if matchesW(kr.Vals) {
+				if rmkit.WireVals(newRow(kr.Vals)) != rmkit.WireVals(kr.Vals) {
+					changing += kr.Card
+				} else {
+					unchanged += kr.Card
+				}
 			}
 		}
+		matched := changing + unchanged
 		if after.total() != before.total() {
 			r.e.Rep.Violate("C27-update-total", fmt.Sprintf("%s: total %d -> %d", q, before.total(), after.total()), sc)
 		}
-		// every copy that left a row identity must have matched, and must have arrived at its image
-		moved := 0
-		gain := map[string]int{}
-		for _, kr := range before.Rows {
-			d := kr.Card - after.card(kr.Vals)
-			if d > 0 {
-				if !matchesW(kr.Vals) {
-					r.e.Rep.Violate("C27-update-touches-unmatched", fmt.Sprintf("%s: row %v went %d -> %d", q, kr.Vals, kr.Card, after.card(kr.Vals)), sc)
-				}
-			}
-			_ = d
-		}
-		// net flow check: after = before - moved(r) + moved(preimages of r); with LIMIT the split among
-		// matching identities is free, so check the totals: sum of positive losses of matching,
-		// changing rows = want (when images are not themselves matching sources)
-		want := matched
+		// LIMIT counts matched rows (changed or not); exactly the chosen changing copies move to their image
+		lo, hi := changing, changing
 		if op.Lim > 0 && op.Lim < matched {
-			want = op.Lim
+			hi = op.Lim
+			if hi > changing {
+				hi = changing
+			}
+			lo = op.Lim - unchanged
+			if lo < 0 {
+				lo = 0
+			}
 		}
 		selfFeeding := false
 		for _, kr := range before.Rows {
@@ -350,7 +348,14 @@ func (r *runner) applyDML(tbl string, cols []rmkit.Col, before *kTable, op kOp, 
 				selfFeeding = true
 			}
 		}
+		for _, kr := range before.Rows {
+			if d := kr.Card - after.card(kr.Vals); d > 0 && !matchesW(kr.Vals) {
+				r.e.Rep.Violate("C27-update-touches-unmatched", fmt.Sprintf("%s: row %v went %d -> %d", q, kr.Vals, kr.Card, after.card(kr.Vals)), sc)
+			}
+		}
 		if !selfFeeding {
+			moved := 0
+			gain := map[string]int{}
 			for _, kr := range before.Rows {
 				if matchesW(kr.Vals) && rmkit.WireVals(newRow(kr.Vals)) != rmkit.WireVals(kr.Vals) {
 					d := kr.Card - after.card(kr.Vals)
@@ -358,22 +363,20 @@ func (r *runner) applyDML(tbl string, cols []rmkit.Col, before *kTable, op kOp, 
 					gain[rmkit.WireVals(newRow(kr.Vals))] += d
 				}
 			}
-			if moved != want {
-				r.e.Rep.Violate("C27-update-limit", fmt.Sprintf("%s: %d copies changed, want exactly %d (matched %d)", q, moved, want, matched), sc)
+			if moved < lo || moved > hi {
+				r.e.Rep.Violate("C27-update-limit", fmt.Sprintf("%s: %d copies changed, want between %d and %d (matched %d of which %d unchanged by SET)", q, moved, lo, hi, matched, unchanged), sc)
 			}
 			for _, kr := range after.Rows {
 				k := rmkit.WireVals(kr.Vals)
-				src := 0
 				if matchesW(kr.Vals) && rmkit.WireVals(newRow(kr.Vals)) != k {
 					continue // a source row, accounted above
 				}
-				src = before.card(kr.Vals)
-				if kr.Card != src+gain[k] {
-					r.e.Rep.Violate("C27-update-image", fmt.Sprintf("%s: row %v has %d copies, want %d", q, kr.Vals, kr.Card, src+gain[k]), sc)
+				if kr.Card != before.card(kr.Vals)+gain[k] {
+					r.e.Rep.Violate("C27-update-image", fmt.Sprintf("%s: row %v has %d copies, want %d", q, kr.Vals, kr.Card, before.card(kr.Vals)+gain[k]), sc)
 				}
 			}
-			if affected != want {
-				r.e.Rep.Violate("C27-update-affected", fmt.Sprintf("%s: reports %d rows affected, want %d", q, affected, want), sc)
+			if affected != moved {
+				r.e.Rep.Violate("C27-update-affected", fmt.Sprintf("%s: reports %d rows affected, %d copies changed", q, affected, moved), sc)
 			}
 		} else {
 			r.e.Rep.Hit("upd-self-feeding")
@@ -585,7 +588,18 @@ func (r *runner) runKeylessScenario(sc *kScenario) {
 	if sc.Resolve != "none" {
 		rr := s.Exec(fmt.Sprintf("call dolt_conflicts_resolve('--%s', '%s')", sc.Resolve, tbl))
 		if rr.Err != nil {
-			r.e.Rep.Violate("C27-resolve-error", rr.Err.Error(), sc)
+			bothGone := false
+			for _, c := range confs {
+				if c.o == 0 && c.t == 0 {
+					bothGone = true
+				}
+			}
+			if sc.Index && sc.Resolve == "theirs" && bothGone && strings.Contains(rr.Err.Error(), "malformed tuple") {
+				r.e.Rep.Known("resolve-keyless-index-both-deleted", "dolt_conflicts_resolve --theirs panics ('malformed tuple') on a keyless table with a secondary index when a conflicted row is absent on both sides: "+rr.Err.Error(), sc)
+				r.e.Rep.Hit("known:resolve-keyless-index-both-deleted")
+			} else {
+				r.e.Rep.Violate("C27-resolve-error", rr.Err.Error(), sc)
+			}
 			return
 		}
 		after, err := r.readKeyless(tbl, sc.Cols, sc)
@@ -649,7 +663,15 @@ func runKeyless(r *runner) {
 			runOne(&sc)
 		}
 	}
-	n := e.N(60, 1200)
+	// witness of known finding resolve-keyless-index-both-deleted (replayed on every run)
+	one, two, three := rmkit.IntV(1), rmkit.IntV(2), rmkit.IntV(3)
+	runOne(&kScenario{
+		Cols: []rmkit.Col{{ID: 1, Ty: 'i'}, {ID: 2, Ty: 'i'}}, Index: true, Resolve: "theirs",
+		Base:   [][]rmkit.Val{{one, one}, {two, two}},
+		Ours:   []kOp{{Kind: "del", Col: 0, V: one}},
+		Theirs: []kOp{{Kind: "del", Col: 0, V: one}, {Kind: "ins", Row: []rmkit.Val{three, three}}},
+	})
+	n := e.N(40, 1200)
 	root := hx.NewRng(e.Seed*0xD6E8FEB86659FD93 ^ e.Rng.U64())
 	for i := 0; i < n; i++ {
 		runOne(kGen(root.Fork()))
